@@ -370,6 +370,9 @@ class Engine:
                 st.env["__out__"] = SetV(lambda v: z3.BoolVal(False), 2)
             elif K.returns == "TupleList":
                 st.env["__out__"] = self.fresh_tuplist(st, empty=True)
+            elif K.returns and K.returns.startswith("Seq[int*"):
+                ar_ = int(K.returns[8:-1])
+                st.env["__out__"] = ListV(0, lambda i, ar_=ar_: TupV([IntV(0)] * ar_))
             else:
                 st.env["__out__"] = ListV(0, lambda i: IntV(0))
         start = len(self.obls)
@@ -703,6 +706,15 @@ class Engine:
                         and isinstance(ann.slice, ast.Name) and ann.slice.id in self.abstract_kinds:
                     mk = self.abstract_kinds[ann.slice.id][0]  # typed empty list of abstract patterns
                     val = ListV(0, lambda i, mk=mk: mk(z3.IntVal(0)))
+                elif isinstance(val, ListV) and z3.is_int_value(z3.simplify(val.n)) and z3.simplify(val.n).as_long() == 0 \
+                        and isinstance(ann, ast.Subscript) and isinstance(ann.slice, ast.Subscript) \
+                        and isinstance(ann.slice.value, ast.Name) and ann.slice.value.id == "Tuple" and isinstance(ann.slice.slice, ast.Tuple):
+                    # Deque[Tuple[int, int]] / List[Tuple[int, ...]] on an empty collection: the element shape
+                    ar_ = len(ann.slice.slice.elts)
+                    dq_ = getattr(val, "is_deque", False)
+                    val = ListV(0, lambda i, ar_=ar_: TupV([IntV(0)] * ar_))
+                    if dq_:
+                        val.is_deque = True
                 self.assign(node.target, val, st)
             return [("fall", st, None)]
         if isinstance(node, ast.AugAssign):
@@ -811,6 +823,10 @@ class Engine:
             items = self.unpack(val, len(tgt.elts), st)
             for t, v in zip(tgt.elts, items):
                 self.assign(t, v, st)
+            return
+        if isinstance(tgt, ast.Attribute) and isinstance(tgt.value, ast.Name) and tgt.value.id == "self" \
+                and self.contract is not None and tgt.attr in getattr(self.contract.cls, "memo_attrs", ()):
+            st.env[f"self.{tgt.attr}"] = val
             return
         if isinstance(tgt, ast.Subscript):
             base = self.ev(tgt.value, st)
@@ -1058,7 +1074,10 @@ class Engine:
             sample = cur.at(z3.IntVal(0))
             if isinstance(sample, TupV):
                 funs = [fresh_fun(nm, z3.IntSort(), z3.IntSort()) for _ in sample.items]
-                return ListV(n, lambda i, funs=funs: TupV([IntV(f(i)) for f in funs]))
+                out_ = ListV(n, lambda i, funs=funs: TupV([IntV(f(i)) for f in funs]))
+                if getattr(cur, "is_deque", False):
+                    out_.is_deque = True
+                return out_
             if isinstance(sample, ObjV) and callable(sample.fields.get("__mk__")):
                 Fo = fresh_fun(nm, z3.IntSort(), z3.IntSort())
                 mk_ = sample.fields["__mk__"]
@@ -1215,6 +1234,13 @@ class Engine:
         return ListV(len(items), fn)
 
     def ev_Attribute(self, node, st):
+        memo = getattr(self.contract.cls, "memo_attrs", ()) if self.contract is not None else ()
+        if node.attr in memo and isinstance(node.value, ast.Name) and node.value.id == "self":
+            # MEMO-ATTRIBUTE: the attribute caches a value that depends only on the (immutable) object -
+            # established by the structural obligation memo-invariant (pyvc.frames); the function is verified
+            # on its cold path (attribute unset), the warm path returns the same value by that invariant
+            self.rules_used.add(f"memo-attribute self.{node.attr} (cold path verified; warm path by the memo-invariant obligation)")
+            return st.env.get(f"self.{node.attr}", NONE)
         base = self.ev(node.value, st)
         if isinstance(base, ObjV) and node.attr in base.fields:
             return base.fields[node.attr]
